@@ -598,4 +598,50 @@ def run(ctx: Ctx) -> None:
 
 
 def replay(ctx: Ctx, path: str) -> int:
+    with open(path) as f:
+        rp = json.load(f)
+    case = rp.get("case") or {}
+    if "tv" not in case and ("payload" in case or "grafts" in case):
+        # a value of the very-deep leg: rebuilt from its recipe (the value itself is too large to store) and judged again
+        import copy
+        sub = valuecheck.subject()
+        name = case["root"][1]
+        T = getattr(sub.types, name)
+        if "payload" in case:
+            cur: Any = 1
+            for _ in range(case["levels"]):
+                cur = [cur] if case["payload"] == "list" else {"k": cur}
+            j = {"ProgressParams": {"token": 1, "value": cur}, "DidChangeConfigurationParams": {"settings": cur},
+                 "Command": {"title": "t", "command": "c", "arguments": [cur]}}[name]
+            expect = j
+        else:
+            steps = _json_steps(case["route"]) * 5
+            base_j = case["base_json"]
+            out1 = json.loads(json.dumps(sub.conv.unstructure(sub.conv.structure(base_j, T), T)))
+
+            def graft(b):
+                cur = copy.deepcopy(b)
+                for _ in range(case["grafts"] - 1):
+                    outer = copy.deepcopy(b)
+                    parent, key, _n = _walk(outer, steps)
+                    parent[key] = cur
+                    cur = outer
+                return cur
+            j, expect = graft(base_j), graft(out1)
+        try:
+            o = json.loads(json.dumps(sub.conv.unstructure(sub.conv.structure(j, T), T)))
+            ok = o == expect
+            what = "round trip differs" if not ok else ""
+        except Exception as e:
+            ok, what = False, f"{type(e).__name__}"
+        if ok:
+            print("[C01] replay: the value makes the round trip now")
+            return 0
+        sig = tuple(rp.get("signature") or ())
+        if ctx.known.match(sig):
+            print(f"KNOWN-FINDING: property=C01 {ctx.known.match(sig)['what'][:200]}")
+            print("[C01] replay: recorded signature reproduces (a listed finding)")
+            return 0
+        print(f"VIOLATION property=C01 replay={path}\n  {name}: {what}")
+        return 1
     return valuecheck.replay_value_case(ctx, "C01", path)
